@@ -113,3 +113,12 @@ def make_base(w: int = 9) -> Base:
 
 
 NOT_A_CLASS = 5
+
+
+class NeedsW(Base):
+    """A subclass with a required constructor parameter."""
+
+    def __init__(self, w: int, t: float = 0.5):
+        self.w = w
+        self.t = t
+        LOG.append((type(self).__name__, dict(w=w, t=t), self))
